@@ -434,3 +434,24 @@ add("C04", "benign: add a second quote style", "sqlglot/dialects/postgres.py",
     "    class Tokenizer(tokens.Tokenizer):\n", "    class Tokenizer(tokens.Tokenizer):\n        QUOTES = [\"'\", \"$$\"]\n", "silent")
 add("C04", "benign: TSQL-style override that still delegates", "sqlglot/generators/sqlite.py",
     "class SQLiteGenerator(generator.Generator):\n", "class SQLiteGenerator(generator.Generator):\n    def literal_sql(self, expression: exp.Literal) -> str:\n        text = super().literal_sql(expression)\n        return text\n\n", "silent")
+
+# ------------------------------------------------------------------------------- C01
+add("C01", "ClickHouse generator loses its FINAL handler", "sqlglot/generators/clickhouse.py",
+    "        exp.Final: lambda self, e: f\"{self.sql(e, 'this')} FINAL\",\n", "", "C01.a")
+add("C01", "ClickHouse generator loses partitionid_sql", "sqlglot/generators/clickhouse.py",
+    "    def partitionid_sql(self, expression: exp.PartitionId) -> str:", "    def _partitionid_sql_disabled(self, expression: exp.PartitionId) -> str:", "C01.a")
+add("C01", "swap GT and LT in Parser.COMPARISON", P,
+    "        TokenType.GT: exp.GT,\n", "        TokenType.GT: exp.LT,\n", "C01.b",
+    extra=[(P, "        TokenType.LT: exp.LT,\n", "        TokenType.LT: exp.GT,\n")])
+add("C01", "neq printed with an operator that re-parses differently", G,
+    "        return self.binary(expression, \"<>\")\n", "        return self.binary(expression, \"<=>\")\n", "C01.b")
+add("C01", "inverse time mapping that does not close", "sqlglot/dialects/duckdb.py",
+    "        \"%e\": \"%-d\",  # BigQuery's space-padded day (%e) -> DuckDB's no-padding day (%-d)\n",
+    "        \"%e\": \"%q\",\n        \"%d\": \"%x\",\n", "C01.c",
+    extra=[("sqlglot/dialects/duckdb.py", "    INVERSE_TIME_MAPPING = {\n", "    TIME_MAPPING = {\"%q\": \"%d\"}\n\n    INVERSE_TIME_MAPPING = {\n")])
+add("C01", "base dialect gains a time mapping", DIALECT,
+    "    TIME_MAPPING: dict[str, str] = {}\n", "    TIME_MAPPING: dict[str, str] = {\"yyyy\": \"%Y\"}\n", "C01.c")
+add("C01", "benign: reorder entries of Parser.COMPARISON", P,
+    "        TokenType.GT: exp.GT,\n        TokenType.GTE: exp.GTE,\n", "        TokenType.GTE: exp.GTE,\n        TokenType.GT: exp.GT,\n", "silent")
+add("C01", "benign: handler for a class no parser builds", G,
+    "    def uncache_sql(self, expression: exp.Uncache) -> str:\n", "    def verifnothing_sql(self, expression: exp.Expr) -> str:\n        return \"\"\n\n    def uncache_sql(self, expression: exp.Uncache) -> str:\n", "silent")
